@@ -41,12 +41,16 @@ def main(tier, seed):
     sbad = run_shards(PID + "_s", sprops.HEADER, "sim_case", "check_sim_c04", terms, shard_size=12)
     for c, r in zip(cases, runs):
         ck.count("s:" + json.dumps(sprops.describe(c), sort_keys=True), sum(1 for (lv, _, _) in r["ticklog"] if lv != 1) >= 2)
+    # the step-exhaustive interrupt injection sweep of C07, judged here by the serial / monotone oracle only
+    icases, _ = c07.s_part(ck, tier, rng)
+    iterms = [slevel.render_sim_case(c["cfg"], c["devs"], (1, 1), 0, [], 1_300_000_003, c["run"]) for c in icases]
+    ibad = run_shards(PID + "_i", sprops.HEADER, "sim_case", "oracle_c04", iterms, shard_size=60)
     ck.rule = ("(a) real MasterScheduler driven message by message on virtual time by random component-playing scripts (answers in "
                "flight with real-time costs, equal wakeup times, interrupts while a tick runs, malformed answers); (b) whole nested "
                "simulations (corpus + seeded random to depth 3) with callbacks and interrupts; non-trivial = script with a mid-tick "
                "interrupt / simulation with >= 2 inner ticks")
     ck.coverage.update(simulations=len(cases), inner_ticks=sum(sum(1 for (lv, _, _) in r["ticklog"] if lv != 1) for r in runs),
-                       disagreements=len(mbad) + len(sbad))
+                       injection_sweep_runs=len(icases), disagreements=len(mbad) + len(sbad) + len(ibad))
     prop = {46, 47, 48, 49}
     done = set()
     for i in sorted(mbad):
@@ -57,6 +61,14 @@ def main(tier, seed):
                 ck.report(REASONS[code], f"MasterScheduler: {REASONS[code]}",
                           dict(kind="master", conns=c["conns"], comps=c["comps"], initial=c["initial"], speed=c["speed"],
                                events=[[r, list(e), [list(o) for o in outs]] for r, e, outs in c["events"]], codes=mbad[i]))
+    for i in sorted(ibad):
+        for code in ibad[i]:
+            if code in prop and code not in done:
+                done.add(code)
+                c = icases[i]
+                ck.report(REASONS[code], f"interrupt of device c{c['device']} injected at loop step {c['step']} ({c['name']}): {REASONS[code]}",
+                          dict(kind="injection", cfg={str(k): v for k, v in c["cfg"].items()}, devs={str(k): v for k, v in c["devs"].items()},
+                               device=c["device"], step=c["step"], inj=c["inj"], ticklog=c["run"]["ticklog"][-12:], codes=ibad[i]))
     for i in sorted(sbad):
         for code in sbad[i]:
             if code in prop and code not in done:
@@ -84,4 +96,12 @@ def main(tier, seed):
 def replay(rp):
     if rp.get("kind") == "single":
         return sprops.replay_S(rp)
+    if rp.get("kind") == "injection":
+        cfg = {int(k): dict(order=[(c, kk) for c, kk in v["order"]], conns=[tuple(x) for x in v["conns"]]) for k, v in rp["cfg"].items()}
+        devs = {int(k): tuple(v) for k, v in rp["devs"].items()}
+        r = slevel.run_internal(cfg, devs, (1, 1), 0, [], 1_300_000_003, inject=(rp["step"], rp["device"]))
+        bad = run_shards("replay", sprops.HEADER, "sim_case", "oracle_c04", [slevel.render_sim_case(cfg, devs, (1, 1), 0, [], 1_300_000_003, r)])
+        print("injection", rp["device"], "at step", rp["step"], "tick log:", r["ticklog"])
+        print("codes:", bad.get(0, []))
+        return 1 if bad else 0
     return c07.replay(rp)
